@@ -126,6 +126,15 @@ def elems(e, sizes, name="x", lo=None, hi=None):
     return parts
 
 
+def elems_enum(e, sizes, name, lo, hi):
+    """elements that the code under test hashes: enumerated by the solver up front (plain ints flow through dask)"""
+    parts, k = [], 0
+    for s in sizes:
+        parts.append([lo + e.choice(f"{name}{k + j}", hi - lo + 1) for j in range(s)])
+        k += s
+    return parts
+
+
 def mkbag(name, parts, literal=False):
     """Bag from a hand-made graph; `literal`: DataNode values (needed when elements are tuples)"""
     if literal:
@@ -247,7 +256,8 @@ def is_even(x):
 
 
 def key_mod2(x):
-    return x % 2
+    """grouping key; dask hashes it, so it is concretised right here (two values per element) and dask's dicts hold plain ints"""
+    return operator.index(x % 2)
 
 
 def neg(x):
@@ -463,19 +473,36 @@ def py_reduce(binop, seq, *init):
     return functools.reduce(binop, seq, *init)
 
 
-def ob_fold(maxnp, maxn):
+def ob_fold_initial(maxnp, maxn, ses):
+    """all_empty is a model variable so that a known-finding predicate can name the region (>= 2 partitions, all of them empty)"""
+    def setup(e):
+        sizes = structure(e, maxnp, maxn)
+        ae = e.int("all_empty", 0, 1)
+        flag = int(len(sizes) >= 2 and not any(sizes))
+        e.assume(lambda: ae == flag)
+        return (elems(e, sizes, "x"),)
+
+    def body(e, out, xp):
+        b = mkbag("p", xp)
+        xs = cat(xp)
+        for se in ses:
+            out.append(decide(e, f"fold(add, initial=0) se={se}", lambda: comp(b.fold(add, initial=0, split_every=se)), lambda: py_reduce(add, xs, 0)))
+            out.append(decide(e, f"fold(binop, add, 0) se={se}", lambda: comp(b.fold(acc_affine, add, initial=0, split_every=se)),
+                              lambda: sum(2 * x + 1 for x in xs)))
+            out.append(decide(e, f"fold(count, add, 0) se={se}", lambda: comp(b.fold(acc_count, add, initial=0, split_every=se)), lambda: len(xs)))
+
+    return mk(f"fold_initial[np<={maxnp},n<={maxn}]", setup, body)
+
+
+def ob_fold(maxnp, maxn, ses):
     def setup(e):
         return (elems(e, structure(e, maxnp, maxn), "x"),)
 
     def body(e, out, xp):
         b = mkbag("p", xp)
         xs = cat(xp)
-        for se in SE:
+        for se in ses:
             out.append(decide(e, f"fold(add) se={se}", lambda: comp(b.fold(add, split_every=se)), lambda: py_reduce(add, xs)))
-            out.append(decide(e, f"fold(add, initial=0) se={se}", lambda: comp(b.fold(add, initial=0, split_every=se)), lambda: py_reduce(add, xs, 0)))
-            out.append(decide(e, f"fold(binop, add, 0) se={se}", lambda: comp(b.fold(acc_affine, add, initial=0, split_every=se)),
-                              lambda: sum(2 * x + 1 for x in xs)))
-            out.append(decide(e, f"fold(count, add, 0) se={se}", lambda: comp(b.fold(acc_count, add, initial=0, split_every=se)), lambda: len(xs)))
             out.append(decide(e, f"fold(last) se={se}", lambda: comp(b.fold(last, split_every=se)), lambda: py_reduce(last, xs)))
             out.append(decide(e, f"fold(first) se={se}", lambda: comp(b.fold(first_, split_every=se)), lambda: py_reduce(first_, xs)))
             out.append(decide(e, f"reduction(sum, sum) se={se}", lambda: comp(b.reduction(sum, sum, split_every=se)), lambda: sum(xs)))
@@ -489,14 +516,14 @@ def ob_fold(maxnp, maxn):
     return mk(f"fold_reduction_sum_count[np<={maxnp},n<={maxn}]", setup, body)
 
 
-def ob_maxmin(maxnp, maxn):
+def ob_maxmin(maxnp, maxn, ses):
     def setup(e):
         return (elems(e, structure(e, maxnp, maxn), "x"),)
 
     def body(e, out, xp):
         b = mkbag("p", xp)
         xs = cat(xp)
-        for se in SE:
+        for se in ses:
             out.append(decide(e, f"max se={se}", lambda: comp(b.max(split_every=se)), lambda: max(xs)))
             out.append(decide(e, f"min se={se}", lambda: comp(b.min(split_every=se)), lambda: min(xs)))
             out.append(decide(e, f"fold(bigger) se={se}", lambda: comp(b.fold(bigger, split_every=se)), lambda: py_reduce(bigger, xs)))
@@ -504,14 +531,14 @@ def ob_maxmin(maxnp, maxn):
     return mk(f"max_min[np<={maxnp},n<={maxn}]", setup, body)
 
 
-def ob_anyall(maxnp, maxn):
+def ob_anyall(maxnp, maxn, ses):
     def setup(e):
         return (elems(e, structure(e, maxnp, maxn), "x"),)
 
     def body(e, out, xp):
         b = mkbag("p", xp)
         xs = cat(xp)
-        for se in SE:
+        for se in ses:
             out.append(decide(e, f"any se={se}", lambda: comp(b.any(split_every=se)), lambda: any(xs)))
             out.append(decide(e, f"all se={se}", lambda: comp(b.all(split_every=se)), lambda: all(xs)))
 
@@ -577,17 +604,17 @@ def ob_take(maxnp, maxn):
     return mk(f"take[np<={maxnp},n<={maxn}]", setup, body)
 
 
-def ob_topk(maxnp, maxn):
+def ob_topk(maxnp, maxn, ses):
     def setup(e):
         return (elems(e, structure(e, maxnp, maxn), "x"),)
 
     def body(e, out, xp):
         b = mkbag("p", xp)
         xs = cat(xp)
-        for k in range(1, maxn + 1):
-            for se in SE:
+        for se in ses:
+            for k in range(1, maxn + 1):
                 out.append(decide(e, f"topk({k}) se={se}", lambda: comp(b.topk(k, split_every=se)), lambda: sorted(xs, reverse=True)[:k]))
-                out.append(decide(e, f"topk({k}, key=neg) se={se}", lambda: comp(b.topk(k, key=neg, split_every=se)), lambda: sorted(xs)[:k]))
+            out.append(decide(e, f"topk(2, key=neg) se={se}", lambda: comp(b.topk(2, key=neg, split_every=se)), lambda: sorted(xs)[:2]))
 
     return mk(f"topk[np<={maxnp},n<={maxn}]", setup, body)
 
@@ -635,23 +662,24 @@ def ob_zip_concat(maxnp, maxn):
                 wp.append(ws[k:k + s])
                 k += s
             bw = mkbag("w", wp)
-            out.append(decide(e, f"concat([w{st}, a, w])", lambda: comp(db.concat([bw, b, bw])), lambda: ws + xs + ws))
-            out.append(decide(e, f"a.product(w{st})", lambda: comp(b.product(bw)), lambda: list(itertools.product(xs, ws)), how="multiset"))
-            out.append(decide(e, f"w{st}.product(a).count", lambda: comp(bw.product(b).count()), lambda: len(xs) * len(ws)))
+            wl = cat(wp)
+            out.append(decide(e, f"concat([w{st}, a, w])", lambda: comp(db.concat([bw, b, bw])), lambda: wl + xs + wl))
+            out.append(decide(e, f"a.product(w{st})", lambda: comp(b.product(bw)), lambda: list(itertools.product(xs, wl)), how="multiset")[0])
+            out.append(decide(e, f"w{st}.product(a).count", lambda: comp(bw.product(b).count()), lambda: len(xs) * len(wl)))
 
     return mk(f"zip_concat_product[np<={maxnp},n<={maxn}]", setup, body)
 
 
-def ob_distinct(maxnp, maxn, lo, hi):
+def ob_distinct(maxnp, maxn, lo, hi, ses):
     """elements are hashed: enumerated over [lo, hi]"""
     def setup(e):
-        return (elems(e, structure(e, maxnp, maxn), "x", lo, hi),)
+        return (elems_enum(e, structure(e, maxnp, maxn), "x", lo, hi),)
 
     def body(e, out, xp):
         b = mkbag("p", xp)
         xs = cat(xp)
         out.append(decide(e, "distinct", lambda: comp(b.distinct()), lambda: sorted({conc(x) for x in xs}), post=lambda g: sorted(map(conc, g))))
-        for se in SE:
+        for se in ses:
             for srt in (False, True):
                 got = attempt(lambda: comp(b.frequencies(split_every=se, sort=srt)))
                 e.check(not is_raised(got), f"frequencies raised {got}")
@@ -699,7 +727,7 @@ def ref_foldby(key, binop, seq, *init):
     return {k: functools.reduce(binop, v, *init) for k, v in groups.items()}
 
 
-def ob_foldby(maxnp, maxn):
+def ob_foldby(maxnp, maxn, ses):
     """the key x % 2 is hashed (enumerated: 2 values per element); the elements stay symbolic"""
     def setup(e):
         return (elems(e, structure(e, maxnp, maxn), "x"),)
@@ -714,7 +742,7 @@ def ob_foldby(maxnp, maxn):
                 raise Violation("foldby lists a key twice")
             return d
 
-        for se in SE:
+        for se in ses:
             out.append(decide(e, f"foldby(key, add) se={se}", lambda: as_dict(comp(b.foldby(key_mod2, add, split_every=se))),
                               lambda: ref_foldby(key_mod2, add, xs)))
             out.append(decide(e, f"foldby(key, add, 0) se={se}", lambda: as_dict(comp(b.foldby(key_mod2, add, 0, split_every=se))),
@@ -781,6 +809,7 @@ def ob_join(maxnp, maxn):
     def body(e, out, xp, ws):
         b = mkbag("p", xp)
         xs = cat(xp)
+        ws = [2 * ws[0], 2 * ws[1] + 1]       # symbolic, one even and one odd (the keys of the second operand do not fork)
 
         def ref(other):
             return [(o, s) for s in xs for o in other if conc(key_mod2(o)) == conc(key_mod2(s))]
@@ -950,19 +979,20 @@ def e2e_witness(model):
 def obligations(tier):
     if tier == "quick":
         P, N = 3, 4          # partitions, elements
-        FP, FN = 3, 4        # forking operations
-        TN = 3               # topk
-        HN = 3               # hashing operations
-        st = (3, 3, -1, 2)
+        RP = 4               # reductions without forks: 4 partitions so that split_every=3 builds a tree
+        FP, FN = 3, 3        # operations whose comparisons fork, hashing operations
+        ses = (2, None)      # on <= 3 partitions split_every=3 builds the same graph as None
+        st = (2, 3, -1, 2)
     else:
         P, N = 5, 5
+        RP = 6
         FP, FN = 4, 4
-        TN = 4
-        HN = 4
-        st = (4, 4, -2, 2)
+        ses = SE
+        st = (3, 4, -2, 2)
     return [
-        ob_map(P, N), ob_starmap(P, N), ob_filter(FP, FN), ob_map_partitions(P, N), ob_flatten(P, min(N, 4)), ob_fold(P, N),
-        ob_maxmin(FP, FN), ob_anyall(FP, FN), ob_accumulate(P, N), ob_take(P, N), ob_topk(FP, TN), ob_repartition(P, N),
-        ob_zip_concat(P, N), ob_distinct(FP, HN, 0, 2), ob_distinct_key(FP, HN), ob_foldby(FP, HN), ob_groupby(FP, HN),
-        ob_join(FP, HN), ob_stats(*st),
+        ob_map(P, N), ob_starmap(P, N), ob_filter(FP, FN), ob_map_partitions(P, N),
+        ob_flatten(P, min(N, 4)), ob_fold(RP, N, SE), ob_fold_initial(RP, N, SE),
+        ob_maxmin(FP, FN, ses), ob_anyall(FP, FN, ses), ob_accumulate(P, N), ob_take(P, N), ob_topk(FP, FN, ses), ob_repartition(P, N),
+        ob_zip_concat(P, N), ob_distinct(FP, FN, 0, 2, ses), ob_distinct_key(FP, FN), ob_foldby(FP, FN, ses), ob_groupby(FP, FN),
+        ob_join(FP, FN), ob_stats(*st),
     ]
